@@ -502,7 +502,25 @@ func runC07(ctx *core.Ctx) {
 				}
 			}
 		}
-		ctx.Check(retOK, "A3", "lockedfile.Transform#errors-returned", tf.Pos(), "a failed overwrite makes Transform return a non-nil error (which triggers the roll-back)")
+		// ... and so is the error of any other step on the file (the shrinking Truncate, the tail write): on
+		// the path where a step's error was found non-nil, that very error is what is returned - a different
+		// variable (the still-nil named result, say) reports success and disarms the roll-back
+		for _, c := range append(append([]*ssa.Call{}, writes...), truncs...) {
+			ce := errOf(c)
+			if ce == nil {
+				continue
+			}
+			for _, r := range g.Returns() {
+				if !ssax.KnownNil(g.FactsAtInstr(r), ce, false) {
+					continue
+				}
+				rv := ssax.ReturnValues(r)[0]
+				if rv != ce && ssax.ResolveLoad(rv) != ce {
+					retOK = false
+				}
+			}
+		}
+		ctx.Check(retOK, "A3", "lockedfile.Transform#errors-returned", tf.Pos(), "a failed step on the file makes Transform return that step's error (which also triggers the roll-back)")
 	}
 	// ---- A4
 	if w := ctx.Need("A4", "lockedfile", "Write"); w != nil {
